@@ -81,6 +81,21 @@ def evalExpr (ctx : Ctx) : Expr → Outcome Number
         else .ok ⟨scaled.value.add b.value, scaled.unit⟩
       | _, _ => .panic "degree: missing unit"
   | .mul es => evalMul ctx Number.one es
+  | .ofProp p (.unit name) =>
+    -- `ctx.lookup(name)` is tried first; a Number has no properties ("Not defined")
+    if name == "now" then .unsupported "date"
+    else match ctx.lookup name with
+      | some _ => .err .generic
+      | none =>
+        match ctx.reg.substance name with
+        | some s => Substance.get s p
+        | none =>
+          if ctx.reg.isSubstanceLike name || looksLikeFormula name then .unsupported "substance" else .err .notfound
+  | .ofProp p (.mul es) => do
+    let (amount, sub) ← evalFactors ctx Number.one none es
+    match sub with
+    | some s => Substance.get { s with amount := Number.mul s.amount amount } p
+    | none => .err .generic
   | .ofProp _ e => do
     let _ ← evalExpr ctx e
     .err .generic        -- a Number has no properties ("Not defined")
@@ -94,6 +109,26 @@ def evalMul (ctx : Ctx) (acc : Number) : List Expr → Outcome Number
   | e :: es => do
     let b ← evalExpr ctx e
     evalMul ctx (Number.mul acc b) es
+
+/-- factors of a product under `of`: numbers multiply the amount, one factor may name a substance
+(`Value::Number * Value::Substance`); two substances are "not defined" -/
+def evalFactors (ctx : Ctx) (acc : Number) (sub : Option Substance) : List Expr → Outcome (Number × Option Substance)
+  | [] => .ok (acc, sub)
+  | .unit name :: es =>
+    if name == "now" then .unsupported "date"
+    else match ctx.lookup name with
+      | some n => evalFactors ctx (Number.mul acc n) sub es
+      | none =>
+        match ctx.reg.substance name with
+        | some s =>
+          (match sub with
+           | none => evalFactors ctx acc (some s) es
+           | some _ => .err .generic)
+        | none =>
+          if ctx.reg.isSubstanceLike name || looksLikeFormula name then .unsupported "substance" else .err .notfound
+  | e :: es => do
+    let n ← evalExpr ctx e
+    evalFactors ctx (Number.mul acc n) sub es
 
 def evalArgs (ctx : Ctx) : List Expr → Outcome (List Number)
   | [] => .ok []
